@@ -189,6 +189,10 @@ def judgeOp (L : KV) (LK : List Kind) (att : Bool × Bool) (op : List String) (r
           | "builders-disagree" :: _ => some ("pg.LargeNodeUpdateRows:builders-disagree " ++ ret)
           | _ => some ("pg.NodeUpdateParameters:bad-output " ++ ret)
       | none => some "bad-op"
+  -- encoding/json round trip: nothing the tracking reports may change
+  | ["json", e] => match entOf e with
+      | some _ => if after != before then some "encoding/json:round-trip-changed-state" else none
+      | none => some "bad-op"
   -- StripAllPropertiesExcept(ks): kept keys keep value and deletion, every other key is absent and untracked
   | ["strip", e, ks] => match entOf e, (if ks = "-" then some [] else (ks.splitOn ",").mapM keyOf) with
       | some e, some ks =>
@@ -260,6 +264,7 @@ def sites (verb : String) : String × String :=
   else if verb = "pmerge" then ("Properties.Merge", "Properties.Merge")
   else if verb = "merge" then ("Properties.Merge", "Node.Merge")
   else if verb = "rmerge" then ("Relationship.Merge", "Relationship.Merge")
+  else if verb = "json" then ("encoding/json", "encoding/json")
   else if verb = "strip" then ("Node.StripAllPropertiesExcept", "Node.StripAllPropertiesExcept")
   else if verb = "addk" then ("Node.AddKinds", "Node.AddKinds")
   else if verb = "delk" then ("Node.DeleteKinds", "Node.DeleteKinds")
